@@ -42,6 +42,9 @@ class ValueGen:
     def scalar(self, t) -> Any:
         n = self.tok()
         name = t.name
+        if self.rng.random() < 0.12 and name in ("Int", "Float", "String", "Boolean"):
+            self.feats.add("value.falsy_scalar")
+            return {"Int": 0, "Float": 0.0, "String": "", "Boolean": False}[name]
         if isinstance(t, GraphQLEnumType):
             vals = list(t.values)
             return vals[n % len(vals)]
